@@ -130,6 +130,21 @@ class Check:
             captured, state = make_env(it)
             it.state = state
             env = Env(parent=it.module_env(module), module=module)
+            # names of the enclosing function (parameters and assigned locals) that the contract does not pin down are arbitrary values
+            import ast
+            outer = source.get_function(module, outer_qualname).node
+            names = [a.arg for a in outer.args.posonlyargs + outer.args.args + outer.args.kwonlyargs]
+            for st in ast.walk(outer):
+                if st is fi.node:
+                    continue
+                if isinstance(st, ast.Name) and isinstance(st.ctx, ast.Store):
+                    names.append(st.id)
+            inner_locals = {n.id for n in ast.walk(fi.node) if isinstance(n, ast.Name) and isinstance(n.ctx, ast.Store)}
+            inner_locals |= {a.arg for a in fi.node.args.posonlyargs + fi.node.args.args + fi.node.args.kwonlyargs}
+            used = {n.id for n in ast.walk(fi.node) if isinstance(n, ast.Name) and isinstance(n.ctx, ast.Load)} - inner_locals
+            for nm in names:
+                if nm in used and nm not in captured:
+                    env.vars[nm] = sym.real(f"captured.{nm}")
             env.vars.update(captured)
             clo = Closure(fi.node, env, module, q)
             args, kwargs = args_make(it, captured)
